@@ -15,4 +15,4 @@ go build -modfile="$tmp/go.mod" -tags verif $race -o "$tmp/vcheck" ./cmd/vcheck 
 mkdir -p "$tmp/vd/evidence" "$tmp/vd/replays"
 cp ../known_findings.txt "$tmp/vd/" 2>/dev/null
 export VERIF_DIR="$tmp/vd" VERIF_TIER="${2:-quick}"
-"$tmp/vcheck" "$@" | grep -v "^   "
+"$tmp/vcheck" "$@" | { if [ -n "${RA_FULL:-}" ]; then cat; else grep -v "^   "; fi; }
